@@ -791,8 +791,10 @@ def basis_hline(e):
     return BASIS_OPS[e[0]] + " " + " ".join(str(x) for x in e[1:])
 
 
-def basis_stage(ctx):
+def basis_stage(ctx, only=None):
     cases = gen_basis_cases(ctx)
+    if only:
+        cases = [c for c in cases if c[0] in only]
     enc = [c[1] for c in cases]
     impl = run_harness("spline", [basis_hline(e) for e in enc])
     model = coq_eval("Run.RunSpline", "runSpline", enc, ctx.work, shard=max(20, len(enc) // (NCPU * 3) + 1), tag="basis")
